@@ -8,8 +8,20 @@
   (`rawTokens` / `tokensWithPos` = the pure lexer on the whole byte string, positions given by `posOf`).
   A reader (`Reader`) is a list of chunks (possibly empty) with a final status: EOF, EOF together with
   the last data, or a failure.  Not modelled: a reader that returns (0, nil) for ever.
+
+  POLICY level (composition with C07's parser, Model/Text/Layout.lean: `parseStream` = buffered scanner over a
+  reader, then `PolicySlice.UnmarshalCedar`; `parseBytes` = pure lexer on the whole byte string, then the parser):
+  * C18_stream_parse_eq_bytes_parse      for ARBITRARY bytes and every chunk schedule the decoded policies (or the
+                                         error) are those of the whole byte string; the parser never runs out of fuel
+  * C18_stream_parse_chunking_invariant  two schedules of the same bytes decode alike
+  * C18_policy_position_exact_partial    for the text of a policy of C07's proved fragment under any admissible
+                                         layout, the decoded policy's `position` is (offset, line, column) of its
+                                         first token (partial: the fragment);
+                                         C18_policy_positions_exact_partial: texts of several policies, every
+                                         policy at ITS first token
 -/
 import CedarGoProofs.Lemmas.C18Fuel
+import CedarGoProofs.Properties.C07
 import CedarGo.Generated.Facts
 namespace CedarGo
 open CedarGo.Text CedarGo.Text.Lx
@@ -105,6 +117,74 @@ theorem C18_fuel_suffices (bufLen : Nat) (hb : 4 ≤ bufLen) (rd : Reader) :
   refine ⟨?_, rawTokens_ne_fuel _ _⟩
   rw [C18_scan_eq_lexer bufLen hb]
   exact rawTokens_ne_fuel _ _
+
+/-! ## policies: scanner + parser -/
+
+/-- **streaming decode = decode of the whole byte string**, for ARBITRARY bytes: scanning any chunk schedule of
+    `rd.bytes` (any buffer size ≥ utf8.UTFMax, reader not failing) and parsing the tokens gives the same list of
+    policies, or the same parse error, or the same scanner error, as lexing the whole byte string and parsing.  The
+    parser is total (`C07_parser_total_list`), so the result is never the model's out-of-fuel marker `none`. -/
+theorem C18_stream_parse_eq_bytes_parse (bufLen : Nat) (hb : 4 ≤ bufLen) (rd : Reader) (hf : rd.final ≠ .fail) :
+    parseStream bufLen rd = parseBytes rd.bytes ∧ parseStream bufLen rd ≠ .ok none := by
+  have hs : scanTokens bufLen rd = tokensWithPos rd.bytes :=
+    (C18_tokens_chunking_invariant rd.bytes bufLen bufLen hb hb rd rd rfl rfl hf hf).2.2.1
+  have he : parseStream bufLen rd = parseBytes rd.bytes := by simp only [parseStream, parseBytes, hs]
+  refine ⟨he, ?_⟩
+  rw [he]
+  unfold parseBytes
+  cases tokensWithPos rd.bytes with
+  | error e => intro h; cases h
+  | ok toks =>
+    obtain ⟨r, hr⟩ := C07_parser_total_list (parserInput toks)
+    intro h
+    have h' : (Except.ok (parsePolicies (parserInput toks)) : Except LexErr _) = .ok none := h
+    rw [hr] at h'
+    cases h'
+
+/-- a failing reader never yields policies -/
+theorem C18_stream_parse_reader_failure (bufLen : Nat) (hb : 4 ≤ bufLen) (chunks : List (List UInt8)) :
+    ∃ e, parseStream bufLen ⟨chunks, .fail⟩ = .error e := by
+  obtain ⟨e, he⟩ := C18_reader_failure_reported bufLen hb chunks
+  exact ⟨e, by simp only [parseStream, scanTokens, he]; rfl⟩
+
+/-- chunking invariance at the level of policies: two schedules (and buffer sizes) of the same bytes decode alike -/
+theorem C18_stream_parse_chunking_invariant (bytes : List UInt8) (n₁ n₂ : Nat) (h₁ : 4 ≤ n₁) (h₂ : 4 ≤ n₂)
+    (rd₁ rd₂ : Reader) (hb₁ : rd₁.bytes = bytes) (hb₂ : rd₂.bytes = bytes) (hf₁ : rd₁.final ≠ .fail) (hf₂ : rd₂.final ≠ .fail) :
+    parseStream n₁ rd₁ = parseStream n₂ rd₂ := by
+  rw [(C18_stream_parse_eq_bytes_parse n₁ h₁ rd₁ hf₁).1, (C18_stream_parse_eq_bytes_parse n₂ h₂ rd₂ hf₂).1, hb₁, hb₂]
+
+example : parseStream 4 ⟨[strBytes "permit(prin", [], strBytes "cipal,action,resource)", strBytes ";"], .eofData⟩
+    = parseStream 64 ⟨[strBytes "permit(principal,action,resource);"], .eof⟩ :=
+  C18_stream_parse_chunking_invariant _ 4 64 (by decide) (by decide) _ _ rfl (by decide +kernel) (by decide) (by decide)
+
+/-- **each policy's reported position is the byte offset, line and column of its first token**: for the text of a
+    policy `p` of C07's proved fragment (`renderMin` / `renderFull`) under ANY admissible layout of whitespace and
+    comments, delivered under ANY chunk schedule, the decoder returns exactly `[p]` whose `position` is
+    `positionAt bytes off` with `off` = the offset of `p`'s first token (the length of the first separator), i.e.
+    offset `off`, line 1 + number of newlines before `off`, column 1 + number of characters since the last newline.
+    FULL statement: every policy of every accepted text.  Missing: as for `C07_parse_text_roundtrip_partial`
+    (texts outside the renderings of the fragment).  Several policies: `C18_policy_positions_exact_partial`. -/
+theorem C18_policy_position_exact_partial (bufLen : Nat) (hb : 4 ≤ bufLen) (rd : Reader) (hf : rd.final ≠ .fail)
+    (full : Bool) (p : Policy) (lay : Layout) (h : policyOK full p = true) (hadm : Admissible lay (renderPolicy full p))
+    (hbytes : rd.bytes = renderBytes lay (renderPolicy full p)) :
+    parseStream bufLen rd = .ok (some (.ok [{ p with position := positionAt rd.bytes (strBytes (lay.headD "")).length }])) ∧
+    ∀ off, positionAt rd.bytes off =
+      { filename := "", offset := off, line := 1 + (rd.bytes.take off).count 10,
+        column := 1 + (decodeAll (lastLine (rd.bytes.take off))).length } := by
+  refine ⟨?_, fun _ => rfl⟩
+  rw [(C18_stream_parse_eq_bytes_parse bufLen hb rd hf).1, hbytes]
+  exact C07_parse_text_roundtrip_partial full p lay h hadm
+
+/-- the same for a text of SEVERAL policies (`renderList full ps`): under any admissible layout and any chunk
+    schedule the decoder returns exactly `ps`, the k-th policy positioned at the first token of the k-th rendering
+    (`positioned`), and the position of every token is offset / line / column of the byte where it starts -/
+theorem C18_policy_positions_exact_partial (bufLen : Nat) (hb : 4 ≤ bufLen) (rd : Reader) (hf : rd.final ≠ .fail)
+    (full : Bool) (ps : List Policy) (lay : Layout) (h : ps.all (policyOK full) = true) (hadm : Admissible lay (renderList full ps))
+    (hbytes : rd.bytes = renderBytes lay (renderList full ps)) :
+    parseStream bufLen rd = .ok (some (.ok (positioned full ps (parserInput (placed rd.bytes 0 lay (renderList full ps)))))) ∧
+    (ps ≠ [] → ∀ t ∈ parserInput (placed rd.bytes 0 lay (renderList full ps)), posOfC07 t = positionAt rd.bytes t.pos.offset) := by
+  rw [(C18_stream_parse_eq_bytes_parse bufLen hb rd hf).1, hbytes]
+  exact C07_parse_text_list_roundtrip_partial full ps lay h hadm
 
 /-- Tie to the source: the buffer size of the Go scanner (regenerated from cedar_tokenize.go on every
     check) satisfies the hypothesis `4 ≤ bufLen` (utf8.UTFMax) of the theorems above. -/
